@@ -690,6 +690,11 @@ def replay_skips(ctx, r):
                                     expanded |= sl.leaves_of_operand(a_) | sl.leaves_of_operand(b__)
                             elif l[0] == "const" and l[1] in (0, 1, False, True):
                                 continue
+                            elif l[0] == "call" and (l[1] or "").split("::")[-1] in ("map_or", "unwrap_or") and \
+                                    (l[1] or "").startswith("std::option::Option") and not isinstance(l[2], tuple) and \
+                                    b.blocks[l[2]]["term"]["args"]:
+                                # `checkpoint.map_or(0, NonZeroU64::get)`: the optional version as a plain number
+                                expanded |= set(x for x in sl.leaves_of_operand(b.blocks[l[2]]["term"]["args"][0]))
                             else:
                                 expanded.add(l)
                         leaves = expanded
@@ -847,6 +852,12 @@ def highest_version_accumulator(ctx, r):
                     defs = b.assignments().get(h, [])
                     if len(defs) >= 2:
                         return (h, ())
+                    if len(defs) == 1 and defs[0][1] == "term" and (term_path(defs[0][2]) or "").endswith("NonZero::new") \
+                            and defs[0][2]["args"]:
+                        # a plain integer watermark (0 = none yet) turned back into the optional form at the end
+                        h2 = root_local(b, defs[0][2]["args"][0])
+                        if isinstance(h2, int) and len(b.assignments().get(h2, [])) >= 2:
+                            return (h2, ())
                     if len(defs) == 1 and defs[0][1] != "term" and defs[0][2]["k"] == "use":
                         pl = place_of(defs[0][2]["op"])
                         if pl is not None and pl["p"]:
@@ -916,6 +927,8 @@ def highest_version_accumulator(ctx, r):
             """A local that merely holds a copy made elsewhere (a parameter of an inlined helper, a temporary): one
             definition, a plain use."""
             d2 = b.assignments().get(l2, [])
+            if len(d2) == 1 and d2[0][1] == "term" and (term_path(d2[0][2]) or "").endswith("NonZero::get"):
+                return True         # (the version as a plain number)
             return len(d2) == 1 and d2[0][1] != "term" and d2[0][2]["k"] == "use"
 
         def terminals_local(l, depth=0, seen=None, at=None):
@@ -929,7 +942,9 @@ def highest_version_accumulator(ctx, r):
             defs_l = b.assignments().get(l, [])
             for (dbb, j, rv) in defs_l:
                 here = at if (at is not None and len(defs_l) == 1) else dbb
-                if j == "term":
+                if j == "term" and (term_path(rv) or "").endswith("NonZero::get") and rv["args"]:
+                    out.append((here, "use", rv["args"][0]))        # the version as a plain number
+                elif j == "term":
                     out.append((here, "call", rv))
                 elif rv["k"] == "use":
                     pl = place_of(rv["op"])
@@ -1010,6 +1025,10 @@ def highest_version_accumulator(ctx, r):
                 lv = sl.leaves_of_operand(x) if kind == "use" else set()
                 # the checkpoint version the replayer was given: a field of its receiver, or a parameter of its own
                 # (a version-typed one)
+                if kind == "call" and (term_path(x) or "").split("::")[-1] in ("map_or", "unwrap_or", "map_or_else") and x["args"]:
+                    # `checkpoint.map_or(0, NonZeroU64::get)`: the checkpoint version as a plain watermark
+                    lv = sl.leaves_of_operand(x["args"][0])
+                    kind = "use"
                 ok = kind == "use" and bool(lv) and all(
                     l[0] == "param" and (l[2] or "NonZero" in prog.ty_str(b.locals[l[1]])) for l in lv)
                 n_init += 1
